@@ -1,0 +1,73 @@
+//go:build verif
+
+// Contracts for the RFC 7523 JWT-bearer grant (checked by /verif/bin/govc; comment-only, never compiled into a normal build).
+package rfc7523
+
+// ---------------------------------------------------------------- storage (jti_seen: the jtis the store remembers)
+//@ interface RFC7523KeyStorage.IsJWTUsed
+//@   ensures err == nil ==> result == jti_seen[jti]
+//@ interface RFC7523KeyStorage.MarkJWTUsedForTime
+//@   modifies jti_seen
+//@   ensures err == nil ==> !old(jti_seen[jti]) && jti_seen == upd(old(jti_seen), jti, true)
+//@   ensures err != nil ==> jti_seen == old(jti_seen)
+//@ interface RFC7523KeyStorage.GetPublicKey
+//@ interface RFC7523KeyStorage.GetPublicKeys
+//@ interface RFC7523KeyStorage.GetPublicKeyScopes
+//@ pureiface fosite.JWTBearerConfigProvider.none
+
+// ---------------------------------------------------------------- C15: claims of the grant assertion
+//@ func audienceMatchesTokenURLs
+//@   pure
+//@   ensures [C15.grant-audience] result == (exists k int :: 0 <= k && k < len(tokenURLs) && insl(claims.Audience, tokenURLs[k]))
+//@   invariant loop#1 [C15.grant-audience] $i <= len(tokenURLs) && (forall k int :: 0 <= k && k < $i ==> !insl(claims.Audience, tokenURLs[k]))
+
+// validateTokenClaims: audience names the token endpoint, exp present and not past, nbf respected, iat present when
+// required, lifetime bounded by the configured maximum, jti present when required and not remembered as used.
+//@ func (*Handler).validateTokenClaims
+//@   requires c != nil && c.Storage != nil && c.Config != nil
+//@   ensures [C15.grant-audience] err == nil ==> len(claims.Audience) > 0 && (exists k int :: 0 <= k && k < len(c.Config.GetTokenURLs(ctx)) && insl(claims.Audience, c.Config.GetTokenURLs(ctx)[k]))
+//@   ensures [C15.grant-expiry] err == nil ==> claims.Expiry != nil && claims.Expiry.Time() >= old($now)
+//@   ensures [C15.grant-not-before] err == nil && claims.NotBefore != nil ==> claims.NotBefore.Time() < $now
+//@   ensures [C15.grant-issued-at] err == nil && !c.Config.GetGrantTypeJWTBearerIssuedDateOptional(ctx) ==> claims.IssuedAt != nil
+//@   ensures [C15.grant-max-lifetime] err == nil && claims.IssuedAt != nil ==> claims.Expiry.Time() - claims.IssuedAt.Time() <= c.Config.GetJWTMaxDuration(ctx)
+//@   ensures [C15.grant-max-lifetime] err == nil && claims.IssuedAt == nil ==> claims.Expiry.Time() - $now <= c.Config.GetJWTMaxDuration(ctx)
+//@   ensures [C15.grant-jti] err == nil && !c.Config.GetGrantTypeJWTBearerIDOptional(ctx) ==> claims.ID != ""
+//@   ensures [C15.grant-jti] err == nil && claims.ID != "" ==> !jti_seen[claims.ID]
+//@   ensures [C15.grant-rejections-are-invalid-grant] err != nil ==> ekind(err) == "invalid_grant" || ekind(err) == "server_error" || eis(err, fosite.ErrJTIKnown)
+
+//@ interface Session.SetSubject
+//@ func (*Handler).CanSkipClientAuth
+//@   requires c != nil
+//@   ensures result == c.Config.GetGrantTypeJWTBearerCanSkipClientAuth(ctx)
+//@ func (*Handler).CanHandleTokenEndpointRequest
+//@   requires c != nil && requester != nil
+//@   ensures result == requester.GetGrantTypes().ExactOne("urn:ietf:params:oauth:grant-type:jwt-bearer")
+//@ func (*Handler).CheckRequest
+//@   requires c != nil && request != nil && request.GetClient() != nil
+//@   ensures [C10.jwt-bearer-needs-registered-grant] err == nil ==> request.GetGrantTypes().ExactOne("urn:ietf:params:oauth:grant-type:jwt-bearer") && (c.Config.GetGrantTypeJWTBearerCanSkipClientAuth(ctx) || request.GetClient().GetGrantTypes().Has("urn:ietf:params:oauth:grant-type:jwt-bearer"))
+//@ func (*Handler).validateTokenPreRequisites
+//@   modifies anyheap
+// Trusted: key selection iterates over go-jose key structs (slices of composite values are outside the engine's subset).
+//@ func (*Handler).findPublicKeyForToken
+//@   trusted
+//@   requires c != nil && c.Storage != nil && token != nil
+//@   modifies anyheap
+//@   ensures err == nil ==> result != nil
+//@ func (*Handler).getSessionFromRequest
+//@   requires requester != nil
+//@   ensures err == nil ==> result != nil && result == requester.GetSession()
+
+// HandleTokenEndpointRequest: the access token expires after the lifespan configured for the jwt-bearer grant (per-client
+// override first), the jti - if present - is marked exactly once, and the requested scopes are covered by the key's scopes.
+//@ func (*Handler).HandleTokenEndpointRequest
+//@   let life = fosite.GetEffectiveLifespan(request.GetClient(), fosite.GrantTypeJWTBearer, fosite.AccessToken, c.HandleHelper.Config.GetAccessTokenLifespan(ctx))
+//@   requires c != nil && c.Storage != nil && c.Config != nil && c.HandleHelper != nil && request != nil && request.GetClient() != nil
+//@   modifies anyheap, jti_seen
+//@   ensures [C07.jwt-bearer-expiry] err == nil ==> 2 * (request.GetSession().GetExpiresAt(fosite.AccessToken) - ($now + life)) <= 1000000000 && 2 * (($now + life) - request.GetSession().GetExpiresAt(fosite.AccessToken)) <= 1000000000
+//@   ensures [C15.grant-jti-once] err == nil ==> jti_seen == old(jti_seen) || (exists j string :: j != "" && !old(jti_seen[j]) && jti_seen == upd(old(jti_seen), j, true))
+//@   ensures [C15.grant-jti-once] err == nil && !c.Config.GetGrantTypeJWTBearerIDOptional(ctx) ==> jti_seen != old(jti_seen)
+//@   assert @call(MarkJWTUsedForTime)#1 [C15.grant-verified-before-marked] claims.Expiry != nil && claims.ID != "" && len(claims.Audience) > 0
+//@   invariant loop#1 true
+
+// The handler's collaborators are set when it is composed and never re-assigned (checked over the repository's code).
+//@ wiring Handler : Storage, Config, HandleHelper
